@@ -399,10 +399,38 @@ structure RInv (lower : Bytes → Bytes) (cv : Conv) (env : Env V T D S W) (rs :
   flat : ∀ fx ∈ rs.flats, FlatInvD env fx (docAt cv rs.base.shard.pts)
   text : ∀ tx ∈ rs.texts, C05.TextInv tx.ix (refCorpus cv env tx.path rs.base.shard.pts.pI (C01.abs rs.base.shard))
 
-/-- the analysed documents of a batch reach the text index writer with every single point's own changes
+/-- the analysed documents `b` of a batch reach the text index writer with every single point's own changes
 in batch order (the repaired `parallelAnalyse`: one worker per node id); the order ACROSS points is free -/
-def ArriveOK (arrive : List (C05.Doc T) → List (C05.Doc T)) : Prop :=
-  ∀ b id, (arrive b).filter (fun d => decide (d.1 = id)) = b.filter (fun d => decide (d.1 = id))
+def ArriveOK (arrive : List (C05.Doc T) → List (C05.Doc T)) (b : List (C05.Doc T)) : Prop :=
+  ∀ id, (arrive b).filter (fun d => decide (d.1 = id)) = b.filter (fun d => decide (d.1 = id))
+
+/-- when the node ids of a batch are pairwise distinct (every insert and delete batch; an update batch that
+names no point twice) EVERY arrival order is fine -/
+theorem arriveOK_of_perm_nodup (arrive : List (C05.Doc T) → List (C05.Doc T)) (b : List (C05.Doc T))
+    (hperm : (arrive b).Perm b) (hdistinct : (b.map (·.1)).Nodup) : ArriveOK arrive b := by
+  intro id
+  have hp : ((arrive b).filter (fun d => decide (d.1 = id))).Perm (b.filter (fun d => decide (d.1 = id))) := hperm.filter _
+  have hlen : (b.filter (fun d => decide (d.1 = id))).length ≤ 1 := by
+    clear hp hperm
+    induction b with
+    | nil => simp
+    | cons d rest ih =>
+      simp only [List.map_cons, List.nodup_cons] at hdistinct
+      by_cases hd : d.1 = id
+      · have : rest.filter (fun d => decide (d.1 = id)) = [] := by
+          rw [List.filter_eq_nil_iff]
+          intro e he
+          simp only [decide_eq_true_eq]
+          intro hid
+          exact hdistinct.1 (List.mem_map.mpr ⟨e, he, by rw [hid, hd]⟩)
+        simp [List.filter_cons, hd, this]
+      · simpa [List.filter_cons, hd] using ih hdistinct.2
+  cases hb : b.filter (fun d => decide (d.1 = id)) with
+  | nil => rw [hb] at hp; exact hp.eq_nil
+  | cons e es =>
+    cases es with
+    | nil => rw [hb] at hp; exact List.perm_singleton.mp hp
+    | cons e' es' => rw [hb] at hlen; simp at hlen
 
 /-- what a batch must satisfy: Model.lean's `StepOK` (fewer than `2^63` node ids afterwards; no NaN written
 into a float-indexed property) and C05's forced hypothesis on the arrival order -/
@@ -410,7 +438,7 @@ def RStepOK (lower : Bytes → Bytes) (cv : Conv) (cfg : C01.Cfg) (env : Env V T
     (op : C01.Op) (ro : ROracle T) : Prop :=
   (rs.step lower cv cfg env op ro).1.base.shard.nextV ≤ idBound ∧
   (∀ pc ∈ changes cfg cv rs.base.shard op ro.o, ∀ ix ∈ rs.base.idxs, ix.kind = .flt → C02.FltOK ix.path pc.cur) ∧
-  ArriveOK ro.arrive
+  ∀ tx ∈ rs.texts, ArriveOK ro.arrive ((changes cfg cv rs.base.shard op ro.o).filterMap (textDoc env tx.path))
 
 def RHistOK (lower : Bytes → Bytes) (cv : Conv) (cfg : C01.Cfg) (env : Env V T D S W) :
     RState V T → List (C01.Op × ROracle T) → Prop
@@ -510,7 +538,7 @@ theorem rstep_inv (lower : Bytes → Bytes) (cv : Conv) (cfg : C01.Cfg) (env : E
       have hag := text_chain env tx.path hchain _ (agree_refCorpus cv env tx.path hp hR.base.liveBound)
       have hord := C05.C05_order (refCorpus cv env tx.path rs.base.shard.pts.pI (C01.abs rs.base.shard))
         (ro.arrive ((changes cfg cv rs.base.shard op ro.o).filterMap (textDoc env tx.path)))
-        ((changes cfg cv rs.base.shard op ro.o).filterMap (textDoc env tx.path)) (harr _)
+        ((changes cfg cv rs.base.shard op ro.o).filterMap (textDoc env tx.path)) (harr tx htx)
       refine TextInv_congr h1 (refCorpus_wf cv env tx.path hp' _) ?_
       intro n
       rw [hord n]
